@@ -221,6 +221,12 @@ def _lists(L, R, pol, path, recpaths=None):
                     out.append(rec)
             return ("EXACT", ["L", out])
         # deep: pair by identity key
+        for rk in pol.rules:
+            if len(rk) > len(path) and tuple(rk[:len(path)]) == tuple(path):
+                # /a/b with a an Array-of-Hashes reaches key b of every
+                # record (YAML Path pass-through); this model addresses
+                # records by index only, so it does not decide such rules
+                raise Unspec("rule path passes through an Array-of-Hashes")
         idkey = pol.keys.get(tuple(path))
         first = R[1][0]
         if idkey is None:
